@@ -4,6 +4,7 @@
 //! DIR/oracle.txt (direct violations of the property by the real code) and DIR/stats.json.
 mod ctx;
 mod rng;
+mod watch;
 mod c09;
 mod search;
 mod searchprops;
@@ -74,6 +75,9 @@ fn main() {
     }
     // panics inside the implementation are caught per case by the modules; keep the default hook quiet
     std::panic::set_hook(Box::new(|_| {}));
+    if matches!(prop.as_str(), "C01" | "C02" | "C03" | "C04" | "C05" | "C10" | "C13") {
+        watch::init(&out, &prop, seed, if tier == Tier::Thorough { "thorough" } else { "quick" });
+    }
     let mut ctx = Ctx::new(seed, tier, only, n);
     let rule = match prop.as_str() {
         "C09" => c09::run(&mut ctx),
